@@ -69,8 +69,14 @@ fn ra_text(a: &RA, pool: &[&str], depth: usize) -> String {
         }
         RA::Multi(v) => format!("(multi {})", v.iter().map(|x| ra_text(x, pool, depth + 1)).collect::<Vec<_>>().join(" ")),
         RA::TapHold(var, t, h) => {
-            let name = ["tap-hold", "tap-hold-press", "tap-hold-release"][*var as usize % 3];
-            format!("({name} 0 20 {} {})", ra_text(t, pool, depth + 1), ra_text(h, pool, depth + 1))
+            let v = *var as usize % 5;
+            let name = ["tap-hold", "tap-hold-press", "tap-hold-release", "tap-hold-press-timeout", "tap-hold-release-timeout"][v];
+            if v >= 3 {
+                // the timeout action is a key of its own
+                format!("({name} 0 20 {} {} {})", ra_text(t, pool, depth + 1), ra_text(h, pool, depth + 1), k(5))
+            } else {
+                format!("({name} 0 20 {} {})", ra_text(t, pool, depth + 1), ra_text(h, pool, depth + 1))
+            }
         }
         RA::TapDance(eager, v) => format!(
             "({} 20 ({}))",
@@ -295,7 +301,7 @@ fn ra_strategy() -> BoxedStrategy<RA> {
     leaf.prop_recursive(3, 12, 3, |inner| {
         prop_oneof![
             2 => prop::collection::vec(inner.clone(), 2..4).prop_map(RA::Multi),
-            2 => (0u8..3, inner.clone(), inner.clone()).prop_map(|(v, t, h)| RA::TapHold(v, Box::new(t), Box::new(h))),
+            2 => (0u8..5, inner.clone(), inner.clone()).prop_map(|(v, t, h)| RA::TapHold(v, Box::new(t), Box::new(h))),
             2 => (any::<bool>(), prop::collection::vec(inner.clone(), 1..4)).prop_map(|(e, v)| RA::TapDance(e, v)),
             1 => inner.clone().prop_map(|x| RA::OneShot(Box::new(x))),
             1 => (inner.clone(), inner.clone()).prop_map(|(l, r)| RA::Fork(Box::new(l), Box::new(r))),
@@ -404,12 +410,16 @@ fn judge_case(c: &RCase) -> Verdict {
                 }
                 applied = sim.outs.len();
                 let before = sim.outs.len();
+                let seq_active_before = !sim.k.sequence_state.is_inactive();
                 sim.input(*k, KeyValue::Repeat);
                 let produced: Vec<_> = sim.outs[before..].to_vec();
                 applied = sim.outs.len();
                 // safety
                 if produced.len() > 1 {
                     return Verdict::failed("repeat:more-than-one-event", format!("{}\nthe repeat of {} produced {}", describe(&sim), out_name(*k), fmt_outs(&produced)));
+                }
+                if seq_mode(c) >= 2 && seq_active_before && !produced.is_empty() {
+                    return Verdict::failed("repeat:forwarded-during-hidden-sequence", format!("{}\nthe repeat of {} produced {} while a hidden sequence mode was active", describe(&sim), out_name(*k), fmt_outs(&produced)));
                 }
                 if let Some(o) = produced.first() {
                     any_repeat_out = true;
